@@ -394,3 +394,4 @@ func structuredPayloads() [][]byte {
 	}
 	return out
 }
+
